@@ -11,7 +11,8 @@ MANIFEST = dict(
           "carries Parse's error code; strict mode only ever adds the strict error; a batch returns exactly the individual results and fails at the first failing index. "
           "The tie is checked on every run: the real parseStatement is recorded from every cursor position of every input (result, cursor afterwards), the Coq loops are evaluated on "
           "that table and must reproduce what the real Parse, Parse(strict), ParseContext, ParseContext(strict), recovery and synchronize returned; an implementation-side oracle runs all 15 entry points "
-          "of the property on every input and requires joint agreement (accept/reject, trees, error code), plus batch lists against the individual calls."),
+          "of the property on every input and requires joint agreement (accept/reject, trees, error code), plus batch lists against the individual calls."
+          " The batch on ONE reused parser (multi_st, state threaded from member to member) equals the batch of individual calls whenever every call leaves the parser as good as new (C07_batch_reused_parser; depth-counter instance and a leak refutation); exercised by long batches (120-320 members, 18 statement kinds x 150), batches with two malformed members, one accepted statement per pooled construct, statements framed by unusual blank characters, and one parser used through several of its methods in turn."),
     note=common.BASE_NOTE + "The wrappers (tokenize + convert + loop) are covered by the 15-way oracle, not by a theorem; the statement parser itself is abstract in the theorems (its determinism is property C08).",
     design="6/C07")
 
